@@ -6,6 +6,7 @@ CONSTANT MaxRows = 5
 CONSTANT MaxTasks = 2
 CONSTANT SampleMod = 8
 CONSTANT SamplePick = 0
+CONSTANT PreModes = {"none", "all"}
 SPECIFICATION Spec
 INVARIANT TypeOK
 INVARIANT Deposits
